@@ -141,7 +141,32 @@ def kepler(prog):
             x = x.replace(mean, "MEAN").replace(ecc, "ECC")
         return x
     out["step"] = al(sy.name(step_t))
-    out["exits"] = sorted(sorted(al(atom_str(a)) for a in sy.atoms(d, rel, vals)) for d, rel, vals in exits_t)
+    def count_exit(atoms_):
+        """the exhaustion of `for _ in 0..N` and the failing test of `while i < N` with `i` counting up from 0 in steps
+        of one are the same exit: after N iterations"""
+        import re as _re
+        if len(atoms_) != 1:
+            return atoms_
+        m = _re.match(r"^Iterator::next\(mut\(Range\{0,(.*)\}\)\) is None$", atoms_[0])
+        if m:
+            return ["after %s iterations" % m.group(1)]
+        m = _re.match(r"^-(\w+) \+ (loop(?:#\d+)?\(0\)) >= 0$", atoms_[0])
+        if m:
+            # the counter: a local initialised to 0 whose only definition in the loop adds 1 and runs on every iteration
+            for l in range(len(b.locals)):
+                ds = tm.defs.whole[l]
+                ins = [d_ for d_ in ds if d_[0] in lp]
+                outs = [d_ for d_ in ds if d_[0] not in lp]
+                if len(ins) == 1 and len(outs) == 1 and b.locals[l]["ty"].get("k") == "int":
+                    i0 = strip(sy._def_term(outs[0]))
+                    st_ = strip(sy._def_term(ins[0]))
+                    tails_ = [tl for tl, hd in b.back_edges()]
+                    if i0 == ("const", 0, i0[2] if len(i0) > 2 else None) or (i0[0] == "const" and i0[1] == 0):
+                        if st_[0] == "bin" and st_[1] == "Add" and strip(st_[2])[0] == "var" and strip(st_[2])[1] == l and strip(st_[3])[0] == "const" and strip(st_[3])[1] == 1 \
+                                and all(b.dominates(ins[0][0], tl) for tl in tails_) and sy.header_sym(l) == m.group(2):
+                            return ["after %s iterations" % m.group(1)]
+        return atoms_
+    out["exits"] = sorted(count_exit(sorted(al(atom_str(a)) for a in sy.atoms(d, rel, vals))) for d, rel, vals in exits_t)
     starts = []
     for d in tm.defs.whole[el]:
         ats = []
